@@ -95,6 +95,10 @@ def ev(v, val, hooks=None):
                 return pow(*args)
             if name == 'abs':
                 return abs(args[0])
+            if name == 'format':
+                return format(*args)
+            if name == 'round':
+                return round(*args)
             if name == 'divmod':
                 return divmod(args[0], args[1])
         if op == 'mcall':
@@ -131,6 +135,14 @@ def ev(v, val, hooks=None):
                 return getattr(base, a[1])
             except AttributeError:
                 raise Raised('AttributeError')
+        if op == 'format':
+            return ev(a[0], val, hooks).format(
+                *[ev(x, val, hooks) for x in a[1:]])
+        if op == 'fmt':
+            try:
+                return ev(a[0], val, hooks) % ev(a[1], val, hooks)
+            except (TypeError, ValueError) as e:
+                raise Raised(type(e).__name__)
         if op == 'list':
             return [ev(x, val, hooks) for x in a]
         if op == 'set':
